@@ -444,8 +444,10 @@ class Gen:
             return self.fpobj(sc)
         if c < 0.535:
             return self.nested(sc) or [s_obs(self.expr(sc))]
-        if c < 0.55 and depth == 0:
+        if c < 0.545 and depth == 0:
             return self.arrstruct(sc) or [s_obs(self.expr(sc))]
+        if c < 0.55 and depth == 0:
+            return self.strings(sc)
         if c < 0.55:
             return [s_obs(self.expr(sc))]
         if depth >= 2:
@@ -544,6 +546,33 @@ class Gen:
                     out += [s_obs(mem(mem(var(t), f["n"]), x["n"])) for x in self.ifields(f["t"]["id"])[:2]]
         return [s_block(out)]
 
+    def strings(self, sc):
+        """string literals: the array object they denote, subscripts, sizeof, decay to a pointer, arrays initialised from them"""
+        r = self.r
+        pool = [65, 97, 122, 48, 57, 32, 95, 1, 9, 10, 34, 39, 63, 92, 127, 128, 200, 255]
+        bs = [r.choice(pool) for _ in range(r.randrange(1, 8))]
+        name = self.fresh("str_")
+        self.globals.append(s_strobj(name, bs, getattr(self, "charsigned", True)))
+        L = lambda: strlit(name, bs)
+        out = [s_obs(sizeof_(L()))]
+        out += [s_obs(idx(L(), lit("int", j))) for j in sorted(set([0, len(bs), r.randrange(len(bs) + 1)]))]
+        if r.random() < 0.7:
+            pn, j = self.fresh("cp"), r.randrange(len(bs) + 1)
+            out += [s_decl(pn, P(T("char")), i_e(L())), s_obs(idx(var(pn), lit("int", j))), s_obs(deref(bin_("+", var(pn), lit("int", len(bs)))))]
+            if len(bs) >= 2:
+                out += [s_asg("+=", var(pn), lit("int", 2)), s_obs(deref(var(pn))), s_obs(idx(var(pn), lit("int", -1)))]
+        for _ in range(r.randrange(0, 3)):
+            an = self.fresh("ca")
+            k = r.choice([len(bs), len(bs) + 1, len(bs) + 3])       # exact fit without the terminator, with it, with zero fill
+            d = s_decl(an, A(T(r.choice(["char", "char", "uchar", "schar"])), k), i_e(L()))
+            if r.random() < 0.5:
+                self.globals.append(d)
+            else:
+                out.append(d)
+            out += [s_obs(idx(var(an), lit("int", j))) for j in range(k)]
+            out += [s_asg("=", idx(var(an), lit("int", r.randrange(k))), self.lit_for("char")), s_obs(idx(var(an), lit("int", r.randrange(k))))]
+        return [s_block(out)]
+
     def arrstruct(self, sc):
         """arrays of structs: element addresses scale by the struct size (padding included), element copies, pointers stepping over elements"""
         r = self.r
@@ -585,6 +614,7 @@ class Gen:
 
     def program(self, charsigned):
         r = self.r
+        self.charsigned = charsigned
         g = self.empty_scope()
         for _ in range(r.randrange(0, 3)):
             fields = []
@@ -835,7 +865,7 @@ def vm_program(rng, charsigned):
 def agg_program(rng, charsigned):
     """a general program that is certain to contain nested members, arrays of structs, pointer walks and sequenced side effects"""
     g = Gen(rng)
-    g.force = ["nested", "arrstruct", "ptrwalk", "seqfx", "nested", "arrstruct", "seqfx"]
+    g.force = ["nested", "arrstruct", "ptrwalk", "seqfx", "strings", "nested", "arrstruct", "seqfx", "strings"]
     p = g.program(charsigned)
     return p
 
